@@ -109,6 +109,12 @@ def run(rep, tier, seed, replay, proof_ok, proof_msg):
                     c = (culprit or chunk)[0]
                     rep.violation(("leak:" if "LeakSanitizer" in err else "crash:") + corefam.crash_signature(err), "# family %s\n# %s\n%s\n" % (name, err[:3000].replace("\n", "\n# "), "\n".join(c["lines"])), True,
                                   "[%s] the real library aborted / leaked: %s" % (name, corefam.crash_signature(err)))
+        # the numerical kernels' periodic and target/source paths (position shifter, top tree) under the sanitizers
+        from props import numvar, C04, C05
+        for mod, kname in ((C04, "rotation kernel"), (C05, "uniform kernel")):
+            numvar.run_variants(rep, tier, s2, mod.XCFGS, mod.THRESHOLDS, "C15", kname, crash_only=True)
+            n_eval += rep.cov.get("variant_runs", 0)
+            hist["numeric-variants:" + kname] += rep.cov.get("variant_runs", 0)
     else:
         rep.notes.append("replay files of C15 are replayed with the check of the family named in their header (python3 tools/check.py <that property> --replay <file>)")
     if not proof_ok:
